@@ -200,7 +200,9 @@ class Ctx:
     def run_impl(self, script, payload, timeout=1800):
         """run tools/harness/<script> in the repo's python; JSON in (stdin) / JSON out (last line)"""
         path = os.path.join(VERIF, 'tools', 'harness', script)
+        t = time.time()
         rc, out = sh([PY, path], timeout=timeout, input=json.dumps(payload), cwd=VERIF)
+        print(f'[impl] {script} ({time.time() - t:.1f}s)')
         out = clean_out(out)
         lines = [l for l in out.splitlines() if l.startswith('RESULT ')]
         if rc != 0 or not lines:
@@ -452,8 +454,10 @@ def main(argv):
             ctx.obligations.append(('pre_build', 'broken', str(ex)[:500]))
             ctx.broken.append('pre_build')
     ok = ctx.compile_run_files() and ok
+    t_corr = time.time()
     try:
         mod.correspondence(ctx)
+        print(f'[corr] correspondence finished ({time.time() - t_corr:.1f}s)')
     except Exception as ex:  # a harness crash is reported, never swallowed
         import traceback
         traceback.print_exc()
